@@ -42,8 +42,9 @@ def ident(p):
 
 
 def outcome(fn, args=()):
+    "fn: callable or (object, method name); the lookup is part of the guarded call"
     try:
-        return ('ret', fn(*args))
+        return ('ret', (getattr(*fn) if isinstance(fn, tuple) else fn)(*args))
     except Exception as e:  # noqa
         return ('exc', type(e).__name__)
 
@@ -124,7 +125,7 @@ def run_history(H, buf, hist, cfg, key=None):
         if M.has_ties():
             feats.add('ties')
         exps.append(exp)
-        outs = [outcome(getattr(q, name), args) for q in qs]
+        outs = [outcome((q, name), args) for q in qs]
     drain = M.order()
     ok = True
     wit = dict(factor=label, history=[[n] + list(a) for n, a in hist])
@@ -160,7 +161,7 @@ def run_history(H, buf, hist, cfg, key=None):
             ok = False
             continue
         for i, t in enumerate(drain):
-            pk, pp = outcome(q.peek), outcome(q.pop)
+            pk, pp = outcome((q, 'peek')), outcome((q, 'pop'))
             ln = outcome(len, (q,))
             if pk != ('ret', t) or pp != ('ret', t):
                 r = pp if pp != ('ret', t) else pk
@@ -174,8 +175,8 @@ def run_history(H, buf, hist, cfg, key=None):
                 ok = False
                 break
         else:
-            e = [outcome(q.pop), outcome(q.peek), outcome(q.pop, (DFLT,)), outcome(q.peek, (DFLT,)),
-                 outcome(q.pop, (None,)), outcome(len, (q,))]
+            e = [outcome((q, 'pop')), outcome((q, 'peek')), outcome((q, 'pop'), (DFLT,)), outcome((q, 'peek'), (DFLT,)),
+                 outcome((q, 'pop'), (None,)), outcome(len, (q,))]
             want = [('exc', 'IndexError')] * 2 + [('ret', DFLT)] * 2 + [('ret', None), ('ret', 0)]
             if e != want:
                 bad('empty_raises_or_default', 'on the drained queue pop/peek/pop(d)/peek(d)/pop(None)/len -> %r' % (e,),
@@ -301,7 +302,7 @@ def bl_replay(sf, hist):
     bl, ref = BarrelList(), []
     ret = (None, None)
     for name, args in hist:
-        ret = (outcome(getattr(bl, name), args), outcome(getattr(ref, name), args))
+        ret = (outcome((bl, name), args), outcome((ref, name), args))
     return bl, ref, ret
 
 
@@ -362,7 +363,7 @@ def barrel_real(H, n_end, n_mixed, seed):
         if kind == 'end' or r % 8 < 5 or not n:
             i = n if (kind == 'end' or r % 3 == 0) else (r // 8) % (n + 1) if r % 3 == 1 else 0
             ref.insert(i, step)
-            o = outcome(bl.insert, (i, step))
+            o = outcome((bl, 'insert'), (i, step))
             pos = ref.index(step) if kind != 'end' else n
             got = outcome(lambda: (len(bl), bl[pos]))
             good = o[0] == 'ret' and got == ('ret', (n + 1, step))
@@ -371,7 +372,7 @@ def barrel_real(H, n_end, n_mixed, seed):
         else:
             i = 0
             want = ('ret', ref.pop(i))
-            o = outcome(bl.pop, (i,))
+            o = outcome((bl, 'pop'), (i,))
             good = o == want and outcome(len, (bl,)) == ('ret', n - 1)
             name, wc = 'pop', bl_step_class('pop', (i,), n)
             detail = 'pop(%d) of %d items -> %r, list gives %r' % (i, n, o, want)
@@ -404,7 +405,7 @@ def queue_large(H, buf, N, seed):
     def both(name, args, exp):
         for k, q in enumerate(qs):
             if alive[k]:
-                o = outcome(getattr(q, name), args)
+                o = outcome((q, name), args)
                 if (exp == 'noraise' and o[0] != 'ret') or (exp != 'noraise' and o != exp):
                     alive[k] = False
                     report(k, name, '%s%r -> %r, required %r (live tasks %d)' % (name, args, o, exp, len(M)))
@@ -440,13 +441,13 @@ def queue_large(H, buf, N, seed):
         if outcome(len, (q,)) != ('ret', len(order)):
             report(k, '__len__', 'len -> %r, live %d' % (outcome(len, (q,)), len(order)))
             continue
-        got = [outcome(q.pop) for _ in order]
+        got = [outcome((q, 'pop')) for _ in order]
         want = [('ret', t) for t in order]
         if got != want:
             first = next(i for i in range(len(order)) if got[i] != want[i])
             alive[k] = False
             report(k, 'pop', 'draining %d tasks: pop #%d -> %r, required %r' % (len(order), first, got[first], want[first]))
-        elif outcome(q.pop) != ('exc', 'IndexError') or outcome(len, (q,)) != ('ret', 0):
+        elif outcome((q, 'pop')) != ('exc', 'IndexError') or outcome(len, (q,)) != ('ret', 0):
             report(k, 'pop', 'drained queue: pop does not raise IndexError or len != 0')
         H.ev(key=('large-drain', k), nontrivial=True, part='queue_large')
 
